@@ -34,6 +34,8 @@ def ne(x): return x != 1.5
 def radd(x): return 1.5 + x
 def rsub(x): return 1.5 - x
 def rdiv(x): return 1.5 / x
+def mod(x): return x % 1.5
+def rmod(x): return 1.5 % x
 """
 
 
@@ -48,7 +50,16 @@ from dv.cfe import nearest_fp  # noqa: E402
 def I2D(t):
     """the double nearest to the int t (the definition shared with the C front end's int -> double casts)"""
     return nearest_fp(t, 64)
-ARITH = {"Add": "+", "Subtract": "-", "TrueDivide": "/"}
+ARITH = {"Add": "+", "Subtract": "-", "TrueDivide": "/", "Remainder": "%"}
+
+
+def float_rem(a, b):
+    """CPython's float_rem on the doubles: the shared `fmod64` symbol (C11 clauses in dv/cfe.py), the divisor added when the signs differ
+    (the shared IEEE addition symbol), a zero remainder with the divisor's sign"""
+    mod = z3.Function("fmod64", F64, F64, F64)(a, b)
+    zero = z3.FPVal(0.0, F64)
+    adjusted = If(z3.fpLT(b, zero) != z3.fpLT(mod, zero), fp_op("+", 64)(mod, b), mod)
+    return If(Not(z3.fpIsZero(mod)), adjusted, If(z3.fpIsNegative(b), z3.FPVal(-0.0, F64), zero))
 
 
 def _as_double(e, x):
@@ -66,15 +77,16 @@ def _arith_post(op, order):
         xd = _as_double(e, x)
         c = e.floatval
         a, b = (xd, c) if order == "ObjC" else (c, xd)
-        zero_div = And(op == "TrueDivide", order == "CObj", numeric, z3.fpIsZero(xd)) if (op == "TrueDivide" and order == "CObj") else z3.BoolVal(False)
+        zero_div = And(order == "CObj", numeric, z3.fpIsZero(xd)) if (op in ("TrueDivide", "Remainder") and order == "CObj") else z3.BoolVal(False)
         if e.result_null:
             # NULL: ZeroDivisionError for `c / 0`, or an error raised by CPython's own conversion of a huge int
             return Or(And(zero_div, e.err == ERRS["ZeroDivisionError"], e.zerodivision_check != 0),
                       And(O.is_long(x), Not(O.is_float(x)), e.err != 0))
         if r is None:
             return False
-        fast = And(numeric, Not(And(zero_div, e.zerodivision_check != 0)), O.is_float(r), O.fval(r) == fp_op(ARITH[op], 64)(a, b))
-        deleg = And(Not(numeric), O.generic(z3.IntVal(O.OPCODES[{"Add": "add", "Subtract": "sub", "TrueDivide": "truediv"}[op]]),
+        want = float_rem(a, b) if op == "Remainder" else fp_op(ARITH[op], 64)(a, b)
+        fast = And(numeric, Not(And(zero_div, e.zerodivision_check != 0)), O.is_float(r), O.fval(r) == want)
+        deleg = And(Not(numeric), O.generic(z3.IntVal(O.OPCODES[{"Add": "add", "Subtract": "sub", "TrueDivide": "truediv", "Remainder": "mod"}[op]]),
                                             e.op1, e.op2, z3.IntVal(0), r))
         return Or(fast, deleg)
     return post
@@ -123,7 +135,7 @@ def _native(model, ob=None):
         return {"confirmed": False, "note": "build failed " + p.stderr[-300:]}
     code = r'''
 import sys, math; sys.path.insert(0, %r); import dvfbinoprep as m
-fs = {"add": lambda x: x + 1.5, "sub": lambda x: x - 1.5, "div": lambda x: x / 1.5, "eq": lambda x: x == 1.5, "ne": lambda x: x != 1.5,
+fs = {"mod": lambda x: x %% 1.5, "rmod": lambda x: 1.5 %% x, "add": lambda x: x + 1.5, "sub": lambda x: x - 1.5, "div": lambda x: x / 1.5, "eq": lambda x: x == 1.5, "ne": lambda x: x != 1.5,
       "radd": lambda x: 1.5 + x, "rsub": lambda x: 1.5 - x, "rdiv": lambda x: 1.5 / x}
 vals = [0.0, -0.0, 1.5, -1.5, 1e308, -1e308, 5e-324, float("inf"), float("-inf"), float("nan"), 0, 1, -1, 3, 2**30, -2**30, 2**52 + 1,
         2**53 - 1, 2**53, 2**53 + 1, -(2**53) - 1, 2**60 + 1, 2**62 + 3, 2**64 + 1, 2**90 + 1, -2**90 - 1, 2**1100, True, "a", None, 1.5]
